@@ -267,7 +267,8 @@ pub fn spell_comp(c: &Comp, rng: &mut Rng, st: &Style, extended: bool) -> String
     rng.shuffle(&mut ms);
     for m in ms { s.push_str(&m); }
     if c.braces {
-        s.push_str(&c.name);
+        // a multi-word name may wrap over a line break (read as one space)
+        if st.wrap && c.name.contains(' ') && rng.chance(1, 3) { s.push_str(&c.name.replacen(' ', "\n", 1)); } else { s.push_str(&c.name); }
         if let Some(a) = &c.alias { s.push_str(sp(rng, st)); s.push('|'); s.push_str(sp(rng, st)); s.push_str(a); }
         if !c.name.is_empty() { s.push_str(sp(rng, st)); }
         s.push('{');
